@@ -160,3 +160,43 @@ def DbInv (fks : List FkDecl) (db : Db) : Prop :=
   ∀ d ∈ fks, FKInv d.fk (db d.parent) (db d.child)
 
 end VibeProof.Dml
+
+/-! ### TRUNCATE … CASCADE (truncate/constraints.rs `get_fk_children`, truncate/core.rs
+`collect_fk_dependencies` + `execute_truncate_cascade`) -/
+namespace VibeProof.Dml
+open VibeProof
+
+/-- `get_fk_children`: every table (other than the parent itself) that has *some* foreign key
+referencing the parent, each once, in catalog order -/
+def fkChildren (fks : List FkDecl) (tables : List Nat) (p : Nat) : List Nat :=
+  tables.filter (fun c => c != p && fks.any (fun d => d.child == c && d.parent == p))
+
+inductive TErr where
+  | cycle   -- "Circular foreign key dependency detected"
+  | fuel
+  deriving DecidableEq, Repr, Inhabited
+
+def visitAll (rec : List Nat → Nat → Except TErr (List Nat)) : List Nat → List Nat → Except TErr (List Nat)
+  | vis, [] => .ok vis
+  | vis, c :: cs =>
+    match rec vis c with
+    | .error e => .error e
+    | .ok vis' => visitAll rec vis' cs
+
+/-- the DFS of `collect_fk_dependencies`: `vis` = visited, `stack` = recursion stack -/
+def visit (fks : List FkDecl) (tables : List Nat) : Nat → List Nat → List Nat → Nat → Except TErr (List Nat)
+  | 0, _, _, _ => .error .fuel
+  | f + 1, vis, stack, t =>
+    if t ∈ stack then .error .cycle
+    else if t ∈ vis then .ok vis
+    else visitAll (fun vis c => visit fks tables f vis (t :: stack) c) (t :: vis) (fkChildren fks tables t)
+
+/-- `execute_truncate` of every collected table -/
+def emptyTables (db : Db) (s : List Nat) : Db := fun i => if i ∈ s then [] else db i
+
+def truncateCascade (fks : List FkDecl) (tables : List Nat) (fuel : Nat) (db : Db) (p : Nat) : Except TErr Db :=
+  match visit fks tables fuel [] [] p with
+  | .error e => .error e
+  | .ok s => .ok (emptyTables db s)
+
+end VibeProof.Dml
